@@ -8,7 +8,7 @@ the `DeepEqual`-faithful rendering (the value itself: nil and empty differ), `sp
 rendering under which `apiequality.Semantic.DeepEqual` compares (the model's `Sem`). `C20.judge` gets every
 group in the API's view.
 
-* `C20.op {op:"create"|"main"|"status", reg:{hasMeta,hasSpec,hasStatus,subStatus,optSubStatus}, metaValid,
+* `C20.op {op:"create"|"main"|"status"|"delete" (with deleteKeeps, deleteBumps), reg:{hasMeta,hasSpec,hasStatus,subStatus,optSubStatus}, metaValid,
   zero, stored: obj|null, submitted: obj}` → `{rej, out, created}`: one API request against the stored state
   (`apiStep` for the request kinds the harness sends).
 * `C20.judge {op, served, zero, stored, out}` → `{violations:[…], statusAnnotationsOnly}`: the property's
@@ -59,10 +59,13 @@ def doOp (a : Json) : Except String Json := do
   let op ← J.getStr a "op"
   let r ← decodeReg (← J.getObj a "reg")
   let valid ← J.getBool a "metaValid"
+  let keeps := (J.getBool a "deleteKeeps").toOption.getD false
+  let bumps := (J.getBool a "deleteBumps").toOption.getD false
   let zero ← J.getHex a "zero"
   let sub ← decodeObj (← J.getObj a "submitted")
   let mr : MetaRules Str V Unit V Str :=
-    { fixCreate := id, fixUpdate := fun n _ => n, validCreate := fun _ => valid, validUpdate := fun _ _ => valid }
+    { fixCreate := id, fixUpdate := fun n _ => n, validCreate := fun _ => valid, validUpdate := fun _ _ => valid,
+      deleteKeeps := fun _ => keeps, deleteBumps := fun _ => bumps, markDeleting := id, deletedByUpdate := fun _ _ => false }
   let stored ← match J.optObj a "stored" with
     | some j => (decodeObj j).map some
     | none => pure none
@@ -71,6 +74,11 @@ def doOp (a : Json) : Except String Json := do
   | "create", some _ => throw "create against an existing object is AlreadyExists; the harness does not send it"
   | "main", some old => pure (answer false (beforeUpdate sem r .main mr sub old))
   | "status", some old => pure (answer false (beforeUpdate sem r .status mr sub old))
+  | "delete", some old =>
+      match apiDelete mr old with
+      | some o => pure (answer false (.ok o))
+      | none => pure (J.obj [("rej", Json.str ""), ("out", Json.null), ("created", J.bool false)])
+  | "delete", none => pure (answer false (.error .notServed))
   | "main", none => pure (answer true (beforeCreate r mr zero sub))
   | "status", none =>
       -- apiStep: create-on-update through the status endpoint, when it is served
